@@ -3,11 +3,12 @@
    enclosing object, then the enclosing class's statics; the environments of suspended callers are never
    read and never written; a call hands the caller's environment back untouched; an injective renaming
    of a frame's names commutes with every environment operation and does not change which objects are
-   referenced.  The whole-interpreter statement "renaming one function's locals leaves the run
-   unchanged" is NOT yet proved as a theorem (C09_partial): it is checked on the implementation directly
-   (output before/after renaming) and on the interpreter by differential execution, see DESIGN.md. *)
+   referenced; and, for the class-free fragment, the property itself: giving every function its own injective
+   renaming of locals and parameters (one function renamed, the others left alone, being the special case)
+   leaves every run unchanged, for every fuel.  For programs with classes the statement is decided on the
+   implementation directly (output before/after renaming) and against the interpreter, see DESIGN.md. *)
 From Coq Require Import List ZArith String Ascii Bool Arith.
-From Bloch Require Import Lang.Syntax Lang.Eval Lang.EvalProps Lang.ScopeProps.
+From Bloch Require Import Lang.Syntax Lang.Eval Lang.EvalProps Lang.ScopeProps Lang.Alpha.
 Import ListNotations.
 
 Theorem C09_name_lookup_never_reads_a_callers_locals :
@@ -54,3 +55,33 @@ Proof.
   - intros; apply refs_ren.
 Qed.
 Print Assumptions C09_partial_renaming_commutes_with_environment_operations.
+
+(* the property itself, for programs without classes: every function may have its locals and parameters renamed by
+   an injective renaming of its own (fresh names, or names used by other functions - the renamings are independent);
+   the run is the same for every fuel *)
+Theorem C09_renaming_locals_and_parameters_never_changes_a_run :
+  forall F (O : fops F) rt p fuel,
+    p_classes p = [] -> (forall g, good (rt g)) ->
+    (forall d, In d (p_fns p) -> forallb plain_stmt (fn_body d) = true) ->
+    run O fuel (rename_program rt p) = run O fuel p.
+Proof. exact @renaming_locals_preserves_every_run. Qed.
+Print Assumptions C09_renaming_locals_and_parameters_never_changes_a_run.
+
+(* non-vacuity: in a two-function program the callee's parameter d is renamed to the name of the caller's local n
+   (and n to d), the caller is left alone; the premises hold and the renamed program is a different text *)
+Local Open Scope string_scope.
+Local Open Scope Z_scope.
+Definition zops : fops Z :=
+  mkF Z Z.add Z.sub Z.mul Z.quot Z.opp Z.eqb Z.ltb Z.leb (fun z => z) (fun z => z) show_Z show_Z.
+Definition callee : fdecl :=
+  mkFn "twice" [(TInt, "d")] TInt [SDecl false TInt "t" (Some (EBin OMul (EVar "d") (ELit (LInt 2)))); SReturn (Some (EVar "t"))].
+Definition caller : fdecl :=
+  mkFn "main" [] TVoid [SDecl false TInt "n" (Some (ELit (LInt 21))); SEcho (ECall "twice" [EVar "n"]); SEcho (EVar "n")].
+Definition prog2 : program := mkProg [] [caller; callee].
+Definition rt2 (g : string) : string -> string := if String.eqb g "twice" then swap "d" "n" else (fun x => x).
+Example ex_rt2_good : forall g, good (rt2 g).
+Proof.
+  intro g. unfold rt2. destruct (String.eqb g "twice"); [apply good_swap; discriminate | apply good_id].
+Qed.
+Example ex_renamed_differs : rename_program rt2 prog2 <> prog2 /\ run zops 20 (rename_program rt2 prog2) = (["42"; "21"], Finished).
+Proof. split; [vm_compute; discriminate | vm_compute; reflexivity]. Qed.
